@@ -11,6 +11,9 @@ func getErr(meta any) any {
 	switch metaValue := meta.(type) {
 	case *confirmed_block.TransactionStatusMeta:
 		out, _ := solanaerrors.ParseTransactionError(metaValue.Err)
+		if out == nil {
+			return nil // an untyped nil: callers test the result with `== nil`
+		}
 		return out
 	case *metalatest.TransactionStatusMeta:
 		switch status := metaValue.Status.(type) {
